@@ -149,6 +149,22 @@ impl<C: CellType> Memory<C> {
     }
 }
 
+#[cfg(feature = "verif")]
+impl<C: CellType> Memory<C> {
+    /// Verification hook: return the current `(size, offset)` of the memory.
+    pub fn verif_layout(&self) -> (usize, usize) {
+        (self.size, self.offset)
+    }
+
+    /// Verification hook: return the address range of the current allocation.
+    pub fn verif_buffer(&self) -> (usize, usize) {
+        (
+            self.buffer as usize,
+            self.buffer as usize + self.size * mem::size_of::<C>(),
+        )
+    }
+}
+
 impl<'a, C: CellType> Context<'a, C> {
     /// Create a new context for executing a Brainfuck program.
     pub fn new(input: Option<Box<dyn Read + 'a>>, output: Option<Box<dyn Write + 'a>>) -> Self {
